@@ -192,12 +192,12 @@ impl<T> RawTable<T> {
             // We do the best we can, which is to carry over all the current leftovers, and _then_
             // do an incremental resize. This at least moves only the current leftovers, rather
             // than the current full set of elements.
-            self.carry_all(hasher);
-            self.grow(additional);
+            self.carry_all(&hasher);
+            self.grow(additional, &hasher);
         } else {
             // We probably have to resize, but since we don't have any leftovers, we can do it
             // incrementally.
-            self.grow(additional);
+            self.grow(additional, &hasher);
         }
     }
 
@@ -237,10 +237,10 @@ impl<T> RawTable<T> {
             }
             Ok(())
         } else if self.leftovers.is_some() {
-            self.carry_all(hasher);
-            self.try_grow(additional, true)
+            self.carry_all(&hasher);
+            self.try_grow(additional, true, &hasher)
         } else {
-            self.try_grow(additional, true)
+            self.try_grow(additional, true, &hasher)
         }
     }
 
@@ -253,7 +253,7 @@ impl<T> RawTable<T> {
             assert!(self.leftovers.is_none());
             // Even though this _may_ succeed without growing due to tombstones, handling
             // that case is convoluted, so we just assume this would grow the map.
-            self.grow(1);
+            self.grow(1, &hasher);
             return self.insert(hash, value, hasher);
         }
 
@@ -472,15 +472,32 @@ impl<T: Clone> RawTable<T> {
 impl<T> RawTable<T> {
     #[cold]
     #[inline(never)]
-    fn grow(&mut self, extra: usize) {
-        if self.try_grow(extra, false).is_err() {
+    fn grow(&mut self, extra: usize, hasher: impl Fn(&T) -> u64) {
+        if self.try_grow(extra, false, hasher).is_err() {
             unsafe { core::hint::unreachable_unchecked() };
         }
     }
 
     #[cold]
-    fn try_grow(&mut self, extra: usize, fallible: bool) -> Result<(), TryReserveError> {
+    fn try_grow(
+        &mut self,
+        extra: usize,
+        fallible: bool,
+        hasher: impl Fn(&T) -> u64,
+    ) -> Result<(), TryReserveError> {
         debug_assert!(self.leftovers.is_none());
+
+        if mem::size_of::<T>() == 0 {
+            // Zero-sized elements take no time to move, so there is nothing to spread out.
+            // They also cannot be tracked by the cached iterator over the old table
+            // (`RawIter::reflect_remove` does not support them), so never split such a table.
+            return if fallible {
+                self.table.try_reserve(extra, hasher)
+            } else {
+                self.table.reserve(extra, hasher);
+                Ok(())
+            };
+        }
 
         // We need to grow the table by at least a factor of (R + 1)/R to ensure that
         // the new table won't _also_ grow while we're still moving items from the old
